@@ -396,6 +396,11 @@ func (trans *FillTransform) processInterval(
 			// Record real data
 			trans.appendCall(c, c.IntervalIndex()[intervalIndexAt])
 
+			// the buckets after this one are filled from this row (not from the last row of the previous group)
+			for i := range trans.prevReadAts {
+				trans.prevReadAts[i] = intervalIndex
+			}
+
 			if intervalIndexAt == c.IntervalLen()-1 && trans.isSameTag(c) {
 				trans.nextPrevWindow(c, intervalIndex)
 				isStopFillTask = true
